@@ -2,7 +2,7 @@
    Property theorems only.  `Gen.Retry.retry_cfg` is regenerated from
    pedantic/decorators/fn_deco_retry.py on every run; `retry_run` interprets it.         *)
 From Coq Require Import List ZArith Bool Lia.
-From PV Require Import Base.Exn Model.RetrySem Spec.RetrySpec Proofs.RetryProofs Gen.Retry.
+From PV Require Import Base.Exn Model.RetrySem Model.RetryGroups Spec.RetrySpec Proofs.RetryProofs Gen.Retry.
 Import ListNotations.
 
 Definition run attempts listed outs := retry_run Gen.Retry.retry_cfg attempts listed outs.
@@ -98,5 +98,101 @@ Example C15_example :
 Proof.
   cbn zeta. split; [split; [reflexivity|]|].
   - intros j Hj. destruct j as [|[|j]]; [reflexivity|reflexivity|lia].
+  - repeat split; vm_compute; reflexivity.
+Qed.
+
+(* ---- exception groups --------------------------------------------------------------------
+   Outcome streams over exception OBJECTS (Model/RetryGroups.v): plain instances and exception
+   groups carrying leaves / nested groups.  The loop selects by the class of the raised object
+   (`except exceptions:` is isinstance), so a group is listed iff its own class is.              *)
+Definition run_x attempts listed (xouts : nat -> xoc) := run attempts listed (fun i => oc_of (xouts i)).
+
+Theorem C15_groups_invocations : forall attempts listed xouts k,
+  first_stop_x listed xouts k ->
+  n_calls (snd (run_x attempts listed xouts)) = spec_calls attempts k.
+Proof. intros. unfold run_x. apply C15_invocations. now apply first_stop_proj. Qed.
+Print Assumptions C15_groups_invocations.
+
+Theorem C15_groups_invocations_all_listed : forall attempts listed xouts,
+  never_stops_x listed xouts ->
+  n_calls (snd (run_x attempts listed xouts)) = spec_calls_never attempts.
+Proof. intros. unfold run_x. apply C15_invocations_all_listed. now apply never_stops_proj. Qed.
+Print Assumptions C15_groups_invocations_all_listed.
+
+(* a group whose own class is not listed ends the retrying at its position - for ALL members, in
+   particular when every leaf it carries is listed - and the caller receives that very object *)
+Theorem C15_foreign_group_ends_retrying : forall attempts listed xouts i c members,
+  (forall j, (j < i)%nat -> stops_x listed (xouts j) = false) ->
+  xouts i = XRaise (XGroup c members) -> listed c = false ->
+  n_calls (snd (run_x attempts listed xouts)) = spec_calls attempts i /\
+  ((Z.of_nat i < Z.max attempts 1)%Z -> fst (run_x attempts listed xouts) = RFrom i).
+Proof.
+  intros attempts listed xouts i c members Hb Hi Hc.
+  assert (Hs : first_stop_x listed xouts i).
+  { split; [|exact Hb]. rewrite Hi. cbn. now rewrite Hc. }
+  pose proof (C15_groups_invocations attempts listed xouts i Hs) as Hn.
+  split; [exact Hn|]. intro Hlt. unfold run_x in *.
+  rewrite C15_last_outcome_is_result, Hn. unfold spec_calls. f_equal. lia.
+Qed.
+Print Assumptions C15_foreign_group_ends_retrying.
+
+(* a group whose own class IS listed is retried like any listed exception, whatever it carries *)
+Theorem C15_listed_group_is_retried : forall attempts listed xouts c members,
+  xouts 0%nat = XRaise (XGroup c members) -> listed c = true -> (2 <= attempts)%Z ->
+  (2 <= n_calls (snd (run_x attempts listed xouts)))%nat.
+Proof.
+  intros attempts listed xouts c members H0 Hc Ha. unfold run_x.
+  rewrite C15_oracle_agrees. unfold spec_calls_exec.
+  replace (Z.to_nat (Z.max attempts 1)) with (S (Z.to_nat (attempts - 1))) by lia.
+  cbn [find_stop]. rewrite H0. cbn [oc_of xcls stops]. rewrite Hc. cbn [negb].
+  destruct (find_stop listed _ (Z.to_nat (attempts - 1)) 1) as [k|] eqn:E.
+  - apply find_stop_ge in E. lia.
+  - lia.
+Qed.
+Print Assumptions C15_listed_group_is_retried.
+
+(* what the groups of a stream carry has no influence at all: two streams whose objects have the same
+   outcomes agree position by position in kind and in the class of the raised object give the same run (result index and trace) *)
+Theorem C15_group_members_irrelevant : forall attempts listed xo1 xo2,
+  (forall i, oc_of (xo1 i) = oc_of (xo2 i)) ->
+  run_x attempts listed xo1 = run_x attempts listed xo2.
+Proof.
+  intros attempts listed xo1 xo2 H. unfold run_x, run. apply retry_run_ext.
+  exact H.
+Qed.
+Print Assumptions C15_group_members_irrelevant.
+
+(* the object-level oracle evaluated by the correspondence check is the proved count *)
+Theorem C15_groups_oracle_agrees : forall attempts listed xouts,
+  n_calls (snd (run_x attempts listed xouts)) = spec_calls_exec_x attempts listed xouts.
+Proof. intros. unfold run_x. rewrite C15_oracle_agrees. apply spec_calls_exec_proj. Qed.
+Print Assumptions C15_groups_oracle_agrees.
+
+(* the class relation used for groups: ExceptionGroup derives Exception AND BaseExceptionGroup *)
+Example C15_group_classes :
+  listed_g [ExceptionC] ExceptionGroupC = true /\ listed_g [BaseExceptionGroupC] ExceptionGroupC = true /\
+  listed_g [BaseExceptionGroupC] (ExceptionGroupC ++ [0%nat]) = true /\
+  listed_g [ExceptionC] BaseExceptionGroupC = false /\ listed_g [ValueErrorC] ExceptionGroupC = false /\
+  listed_g [ExceptionGroupC] BaseExceptionGroupC = false /\ listed_g [ExceptionGroupC ++ [0%nat]] ExceptionGroupC = false /\
+  listed_g [ValueErrorC; KeyErrorC] KeyErrorC = true /\ listed_g [ValueErrorC; KeyErrorC] LookupErrorC = false.
+Proof. repeat split; reflexivity. Qed.
+
+(* non-vacuity: a foreign group all of whose leaves are listed (also nested) stops the retrying at once,
+   a group with mixed leaves likewise; under the default specification the same group is retried *)
+Example C15_groups_example :
+  let g := XGroup ExceptionGroupC [XPlain ValueErrorC; XGroup ExceptionGroupC [XPlain ValueErrorC]] in
+  let mixed := XGroup ExceptionGroupC [XPlain ValueErrorC; XPlain OSErrorC] in
+  let xouts := fun i : nat => match i with 0%nat => XRaise (XPlain ValueErrorC) | 1%nat => XRaise g | _ => XRet end in
+  let xouts2 := fun i : nat => match i with 0%nat => XRaise mixed | _ => XRet end in
+  all_leaves (listed_g [ValueErrorC]) g = true /\ some_leaf (listed_g [ValueErrorC]) mixed = true /\
+  first_stop_x (listed_g [ValueErrorC]) xouts 1 /\
+  n_calls (snd (run_x 5%Z (listed_g [ValueErrorC]) xouts)) = 2%nat /\
+  fst (run_x 5%Z (listed_g [ValueErrorC]) xouts) = RFrom 1 /\
+  n_calls (snd (run_x 5%Z (listed_g [ValueErrorC]) xouts2)) = 1%nat /\
+  n_calls (snd (run_x 5%Z (listed_g [ExceptionC]) xouts)) = 3%nat /\
+  n_calls (snd (run_x 2%Z (listed_g [ExceptionC]) xouts)) = 2%nat.
+Proof.
+  cbn zeta. split; [reflexivity|]. split; [reflexivity|]. split.
+  - split; [reflexivity|]. intros j Hj. destruct j as [|j]; [reflexivity|lia].
   - repeat split; vm_compute; reflexivity.
 Qed.
